@@ -60,6 +60,8 @@ fn trace(a: &[String]) {
             g_trap(&mut w, &mut r4, if thorough { 150 } else { 20 });
             let mut r5 = Rng::new(seed, "matrix", shard);
             g_matrix(&mut w, &mut r5, if thorough { 12 } else { 2 });
+            let mut r7 = Rng::new(seed, "immobile", shard);
+            g_immobile(&mut w, &mut r7, if thorough { 200 } else { 30 });
             let mut r6 = Rng::new(seed, "illegal", shard);
             g_illegal(&mut w, &mut r6, if thorough { 40 } else { 6 });
         }
@@ -171,10 +173,17 @@ fn run_script(w: &mut W, text: &str) {
                     0 => Some(w.init_initial()),
                     1 => w.init_pos(&enc::string_of(&v[1..])),
                     3 => w.init_pos_raw(&enc::string_of(&v[1..])),
-                    _ if v.len() > 15 => {
-                        // constructed state with an explicit turn-start hash and history (G-built / G-trap / G-matrix)
-                        let h0 = arimaa_engine_step::zobrist::verif::zobrist_from_raw(v[15]);
-                        let hist: Vec<_> = v[16..].iter().map(|x| arimaa_engine_step::zobrist::verif::zobrist_from_raw(*x)).collect();
+                    _ if v.len() > 16 => {
+                        // constructed state with an explicit turn-start hash, earlier boards and history
+                        let raw = arimaa_engine_step::zobrist::verif::zobrist_from_raw;
+                        let h0 = raw(v[15]);
+                        let np = v[16] as usize;
+                        let mut prevw: Vec<[u64; 7]> = vec![];
+                        for i in 0..np {
+                            let o = 17 + 7 * i;
+                            prevw.push([v[o], v[o + 1], v[o + 2], v[o + 3], v[o + 4], v[o + 5], v[o + 6]]);
+                        }
+                        let hist: Vec<_> = v[17 + 7 * np..].iter().map(|x| raw(*x)).collect();
                         w.init_built(
                             [v[1], v[2], v[3], v[4], v[5], v[6], v[7]],
                             v[8] != 0,
@@ -183,6 +192,7 @@ fn run_script(w: &mut W, text: &str) {
                             (v[11], v[12], v[13]),
                             v[14] != 0,
                             h0,
+                            &prevw,
                             &hist,
                         )
                     }
